@@ -36,7 +36,7 @@ import (
 const (
 	c10MaxTags     = 24
 	c10MaxRegions  = 600
-	c10MaxSections = 200
+	c10MaxSections = 2100
 	c10MaxStrtab   = 2048
 	c10MaxRaw      = 1 << 17
 	c10MaxCmd      = 1 << 17
@@ -547,7 +547,7 @@ func c10FromBytes(data []byte) c10Case {
 		case "elf":
 			e := &c10Elf{}
 			n := r.count(c10MaxSections)
-			e.Shndx = uint32(r.u8())
+			e.Shndx = uint32(r.count(c10MaxSections))
 			e.Strtab = r.bytes(int(r.u16()) % (c10MaxStrtab + 1))
 			for i := 0; i < n; i++ {
 				e.Sections = append(e.Sections, c10Section{Name: uint32(r.u16()), Type: r.u32(), Flags: r.u64(), Addr: r.u64(), Size: r.u64(), Other: r.u64()})
@@ -608,7 +608,7 @@ func c10ToBytes(c c10Case) []byte {
 		case "elf":
 			e := t.Elf
 			b = c10AppendCount(b, len(e.Sections))
-			b = append(b, byte(e.Shndx))
+			b = c10AppendCount(b, int(e.Shndx))
 			b = le.AppendUint16(b, uint16(len(e.Strtab)))
 			b = append(b, e.Strtab...)
 			for _, s := range e.Sections {
